@@ -477,3 +477,129 @@ def c16(tier, seed, **kw):
         return dict(rule="", histogram=hist, cases=0, distinct=0, samples=[], broken=[], known=[],
                     violations=[("loading a malformed file killed the process (abort / runaway allocation): %s" % str(e)[:200],
                                  dict(note="runner died; bisect the case file build/corr-C16*"))])
+
+
+# ----------------------------------------------------------------------------- C20: determinism (twin runs)
+
+UNWRITTEN_GPR = ["R12", "R13", "R14", "R15"]          # never written, never used by the generated programs
+GPR_ORDER = "RAX RBX RCX RDX RSI RDI RSP RBP R8 R9 R10 R11 R12 R13 R14 R15".split()
+
+
+def gen_twin_cases(seed, n):
+    """programs and API histories whose registers are written one by one through the public API (64-/32-bit
+    writes in random order); R12-R15 and XMM8-15 are left at the constructor's random values and never touched"""
+    import props
+    rng = random.Random(seed * 49979687 + 20)
+    src = []
+    l1, _ = props.gen_exec_histories(seed + 201, n // 2)
+    l2, _ = props.gen_cf_programs(seed + 202, n // 4)
+    l3, _ = props.gen_sys_histories(seed + 203, n // 4, "pipe")
+    out, hist = [], {}
+    for block in list(props.blocks_of(l1 + l2 + l3).values()):
+        if any(("R12" in b or "R13" in b or "R14" in b or "R15" in b) and not b.startswith("allregs") for b in block):
+            continue
+        nb = []
+        for b in block:
+            if b.startswith("allregs "):
+                vals = b.split()[1:]
+                order = list(range(12))
+                rng.shuffle(order)
+                for k in order:
+                    v = int(vals[k], 16)
+                    if v < (1 << 32) and rng.random() < 0.3:
+                        g32 = "EAX EBX ECX EDX ESI EDI ESP EBP R8D R9D R10D R11D".split()[k]
+                        nb.append("regw 32 %s %x" % (g32, v))      # a 32-bit write defines the whole register
+                    else:
+                        nb.append("regw 64 %s %x" % (GPR_ORDER[k], v))
+            elif b.startswith("allxmm "):
+                continue            # XMM registers stay random: the generated programs do not use them
+            elif b == "dump" or b == "end":
+                nb.append(b)
+            else:
+                nb.append(b)
+        out.append(nb)
+        hist["cases"] = hist.get("cases", 0) + 1
+    lines = []
+    for blk in out:
+        cid = blk[0][5:]
+        lines += blk
+        # the twin in the same process: an independently constructed machine fed the same inputs
+        lines += ["case " + cid + "#twin"] + blk[1:]
+    return lines, hist
+
+
+def mask_dump(lines):
+    """drop what legitimately differs between two machines: the unwritten registers and the XMM file"""
+    out = []
+    for l in lines:
+        if l.startswith("d regs"):
+            t = l.split()
+            # d regs RIP then GPR_ORDER
+            for k, name in enumerate(GPR_ORDER):
+                if name in UNWRITTEN_GPR:
+                    t[3 + k] = "*"
+            out.append(" ".join(t))
+        elif l.startswith("d xmm"):
+            continue
+        elif l.startswith("x "):
+            continue
+        else:
+            out.append(l)
+    return out
+
+
+@prop("C20")
+def c20(tier, seed, **kw):
+    n = 600 if tier == "quick" else 20000
+    lines, hist = gen_twin_cases(seed, n)
+    hs = harnesses()
+    blocks = blocks_of(lines)
+    work = os.path.join(axv.BUILD, "c20")
+    os.makedirs(work, exist_ok=True)
+    cf = os.path.join(work, "cases.txt")
+    open(cf, "w").write("\n".join(lines) + "\n")
+    env = dict(os.environ, AXH_ERRTEXT="1")
+    runs = []
+    for k in range(3):           # three processes (different RNG states, different hash seeds)
+        of = os.path.join(work, "o%d.txt" % k)
+        prof = "release" if k < 2 else "relchk"
+        rc = subprocess.run([hs[prof], "run", cf, of], env=env, stdout=subprocess.DEVNULL, stderr=subprocess.DEVNULL).returncode
+        if rc != 0:
+            raise axv.ImplRunnerDied("harness died in the twin run")
+        runs.append(axv.parse_out(of, drop_x=True))
+    violations, ncmp, nunw = [], 0, 0
+    for cid in runs[0]:
+        if cid.endswith("#twin"):
+            continue
+        a = mask_dump(runs[0][cid])
+        cands = [("same process", mask_dump(runs[0].get(cid + "#twin", []))),
+                 ("another process", mask_dump(runs[1].get(cid, []))),
+                 ("another process, checked build", mask_dump(runs[2].get(cid, [])))]
+        for what, b in cands:
+            ncmp += 1
+            # the checked build may panic where the release build wraps: compare only when neither panicked
+            if what.endswith("checked build") and (any("panic" in l for l in b) or any("panic" in l for l in a)):
+                continue
+            if a != b:
+                first = next(((x, y) for x, y in zip(a, b) if x != y), ("len %d" % len(a), "len %d" % len(b)))
+                if len(violations) < 3:
+                    violations.append(("two machines given the same explicit inputs disagree (%s): `%s` vs `%s`" % (what, first[0][:150], first[1][:150]),
+                                       dict(case=blocks[cid], run_a=runs[0][cid], run_b=b)))
+        # unwritten registers keep their initial (random) values: nothing writes what the program does not name
+        regs = [l.split() for l in runs[0][cid] if l.startswith("d regs")]
+        if len(regs) >= 2:
+            for k, name in enumerate(GPR_ORDER):
+                if name in UNWRITTEN_GPR and len(set(r[3 + k] for r in regs)) > 1:
+                    nunw += 1
+                    if len(violations) < 3:
+                        violations.append(("register %s was never written or named, yet its value changed" % name,
+                                           dict(case=blocks[cid], impl=runs[0][cid])))
+    res = dict(rule="exec / control-flow / syscall histories of C11-C14,C18 rewritten so that RAX..R11 are written one by one through "
+                    "the public register API (64-bit, or 32-bit writes that zero-extend) in random order while R12-R15 and the XMM file keep "
+                    "the constructor's random values; every case is run on two independently constructed machines in one process and again "
+                    "in two further processes (one of them the overflow-checked build); registers, flags, memory, counts, traces, call stacks, "
+                    "syscall state, results and the checksum of every error text must agree; the unwritten registers must keep their values",
+               histogram=hist, cases=len(runs[0]), distinct=len(set(tuple(b[1:]) for b in blocks.values())),
+               samples=[list(blocks.values())[0]], broken=[], known=[], violations=violations,
+               extra=dict(comparisons=ncmp, unwritten_register_changes=nunw, processes=3))
+    return res
